@@ -550,7 +550,8 @@ def run(tier, replay=None):
              "deferred in the zero buffer" % half)
     if summ.get("worker_panic"):
         klass, where = panic_class(summ)
-        rep.violation(klass, "the worker thread panicked: %s%s" % (summ["worker_panic"], (" - " + where.split(" | ")[0].replace("\n", " ")) if where else ""), summ)
+        vlib.log("the worker thread panicked (%s): %d schedules were not started against the dead worker" % (klass, summ.get("not_started", 0)))
+        rep.violation(klass,"the worker thread panicked: %s%s" % (summ["worker_panic"], (" - " + where.split(" | ")[0].replace("\n", " ")) if where else ""), summ)
     for o in res:
         if o.get("kind") == "harness-panic":
             raise vlib.ToolError("harness panic in scenario %s: %s" % (o.get("label"), o.get("msg")))
